@@ -196,6 +196,13 @@ func cycleFrom(start uint64) []uint64 {
 				for r := range readers[l] {
 					next = append(next, r)
 				}
+			} else {
+				// writer preference of sync.RWMutex: a read request queues behind every pending write request
+				for og, ol := range waitLock {
+					if ol == l && og != g && waitMode[og] {
+						next = append(next, og)
+					}
+				}
 			}
 		}
 		for o := range waitGor[g] {
@@ -236,6 +243,14 @@ func WaitFor(others ...uint64) {
 		panic(Deadlock{msg})
 	}
 	mon.Unlock()
+}
+
+// IsWaiting reports whether goroutine g has announced a lock request that has not been granted yet.
+func IsWaiting(g uint64) bool {
+	mon.Lock()
+	defer mon.Unlock()
+	_, ok := waitLock[g]
+	return ok
 }
 
 // DoneWaiting clears the gate edges of the calling goroutine.
